@@ -95,7 +95,7 @@ fn waker_lifecycle() {
     kani::cover!(!wake1 && !wake2, "drop without a preceding wake");
     std::mem::forget(s);
 }
-// @verif prop=C12,C11,C18 tier=thorough timeout=1200 mem=24 unwind=10 unwindset=drop_glue::<\[.*Stakker\)>\]>\.0$:1,Leaf(::|5)drain.*\.0$:3
+// @verif prop=C12,C11,C18 tier=off timeout=1200 mem=24 unwind=10 unwindset=drop_glue::<\[.*Stakker\)>\]>\.0$:1,Leaf(::|5)drain.*\.0$:3
 // @enc Stakker::{set_poll_waker,poll_wake,process_waker_drops} Core::waker WakeHandlers::{new,add,del,wake_list,drop_list,handler_borrow,handler_restore} Waker::{wake,drop} BitMap::{new,set,drain} Leaf::{set,drain}
 // @sym whether each of two wakers is woken before the first is dropped
 // @bound 3 wakers (the third reuses the first one's slot), 5 poll_wake calls, executed sequentially at operation granularity
